@@ -479,3 +479,197 @@ package oj
 //@     set cb = total + skip - shift
 //@     set cl = len(buf) - skip
 //@     set total = total + len(buf)
+
+// ---------------------------------------------------------------------------
+// The tokenizer: the same state machine as the Parser without the build stack; the open containers are recorded as
+// '{' / '[' bytes (as in the Validator). Token handler calls are opaque (A-CB: a handler does not reach the Tokenizer).
+
+//@ unit jsontokenizer
+
+//@ pred TStack(t, q) = len(t.starts) == q.Kinds.Len()
+//@     && (forall i: 0 <= i && i < len(t.starts) ==> (t.starts[i] == '{' && q.Kinds[i] == spec.Obj) || (t.starts[i] == '[' && q.Kinds[i] == spec.Arr))
+
+//@ pred TRel(t, q, n, base) = VMode(t, q) && TStack(t, q) && q.Off == n && q.Multi == !t.OnlyOne
+//@     && t.line == q.Line && t.noff == q.LastNL - base && 1 <= q.Line && q.Line <= n + 1 && -1 <= q.LastNL && q.LastNL < n
+//@     && (q.Ph >= spec.NumNeg && q.Ph <= spec.NumExp ==> gen.NumInv(t.num)) && t.handler != nil
+
+// The open-container bytes share the byte heap with the scratch buffers and the input: they are separate arrays.
+//@ pred TOwn(t, buf) = POwn(t, buf) && arrid(t.starts) != arrid(buf) && arrid(t.starts) != arrid(t.tmp)
+//@     && arrid(t.starts) != arrid(t.runeBytes) && arrid(t.starts) != arrid(t.num.BigBuf)
+
+//@ func (*Tokenizer).tokenizeBuffer
+//@   ghost S seq, base int, qi spec.JState
+//@   opt stream = buf, S, base
+//@   opt forkappend = nonbyte
+//@   opt forkbytes = 4
+//@   requires 0 <= base && base + len(buf) <= 1152921504606846976
+//@   requires TRel(t, spec.Run(qi, S, base), base, base)
+//@   requires [own] TOwn(t, buf)
+//@   modifies everything
+//@   ensures [C01 C09 sim] result == nil && !last ==> TRel(t, spec.Run(qi, S, base+len(buf)), base+len(buf), base) && TOwn(t, buf)
+//@   ensures [C07 frame] t.OnlyOne == old(t.OnlyOne)
+//@   ensures [C01 accept] result == nil && last ==> spec.AcceptEOF(spec.Run(qi, S, base+len(buf)))
+//@   ensures [C06 noff] result == nil ==> -1 - base <= t.noff && t.noff < len(buf)
+//@   ensures [C01 C09 reject] result != nil ==> typeis(result, ParseError, ptr) && VErr(as(result, ParseError), as(result, ParseError).Column + t.noff, qi, S, base, len(buf), last)
+//@   loop 0
+//@     invariant [C01 C06 C09 bounds] 0 <= off && off <= len(buf) && depth == len(t.starts)
+//@     invariant [C01 C09 sim] TRel(t, spec.Run(qi, S, base+off), base+off, base)
+//@     invariant [C07 frame] t.OnlyOne == old(t.OnlyOne)
+//@     invariant [C07 own] TOwn(t, buf)
+//@     variant len(buf) - off
+//@     split spec.Run(qi, S, base+off).Ph in spec.DocStart, spec.DocEnd, spec.ArrFirst, spec.ArrNext, spec.ObjFirst, spec.ObjKey, spec.ObjColon,
+//@        spec.ObjValue, spec.After, spec.Str, spec.StrEsc, spec.StrU, spec.NumNeg, spec.NumZero, spec.NumInt, spec.NumDot, spec.NumFrac,
+//@        spec.NumE, spec.NumESign, spec.NumExp, spec.Lit
+//@     use spec.Run.unfold(qi, S, base+off)
+//@     use S[base+off] == 'n' || S[base+off] == 't' || S[base+off] == 'f' ==> spec.Run.unfold(qi, S, base+off+1, 4)
+//@   loop 1
+//@     let o1 = off + 1
+//@     let i0 = i
+//@     let b0 = b
+//@     let R1 = spec.Run(qi, S, base+off+1)
+//@     invariant $k >= 0 ==> i == $k && b == $s[$k]
+//@     invariant $k == -1 ==> i == i0 && b == b0
+//@     invariant $k >= 0 ==> spaceMap[b] == skipChar
+//@     invariant [C01 C09 sim] EqButOff(spec.Run(qi, S, base+o1+$k+1), R1) && spec.Run(qi, S, base+o1+$k+1).Off == base+o1+$k+1
+//@     invariant [C01 C09 sim] $k >= 0 ==> EqButOff(spec.Run(qi, S, base+o1+$k), R1) && spec.Run(qi, S, base+o1+$k).Off == base+o1+$k
+//@     use spec.Run.unfold(qi, S, base+o1+$k+1)
+//@   loop 2
+//@     let o1 = off + 1
+//@     let i0 = i
+//@     let b0 = b
+//@     let R1 = spec.Run(qi, S, base+off+1)
+//@     invariant $k >= 0 ==> i == $k && b == $s[$k]
+//@     invariant $k == -1 ==> i == i0 && b == b0
+//@     invariant $k >= 0 ==> stringMap[b] == strOk
+//@     invariant [C01 C09 sim] EqButOff(spec.Run(qi, S, base+o1+$k+1), R1) && spec.Run(qi, S, base+o1+$k+1).Off == base+o1+$k+1
+//@     invariant [C01 C09 sim] $k >= 0 ==> EqButOff(spec.Run(qi, S, base+o1+$k), R1) && spec.Run(qi, S, base+o1+$k).Off == base+o1+$k
+//@     use spec.Run.unfold(qi, S, base+o1+$k+1)
+//@   loop 3
+//@     let o1 = off + 1
+//@     let i0 = i
+//@     let b0 = b
+//@     let R1 = spec.Run(qi, S, base+off+1)
+//@     invariant $k >= 0 ==> i == $k && b == $s[$k]
+//@     invariant $k == -1 ==> i == i0 && b == b0
+//@     invariant $k >= 0 ==> stringMap[b] == strOk
+//@     invariant [C01 C09 sim] EqButOff(spec.Run(qi, S, base+o1+$k+1), R1) && spec.Run(qi, S, base+o1+$k+1).Off == base+o1+$k+1
+//@     invariant [C01 C09 sim] $k >= 0 ==> EqButOff(spec.Run(qi, S, base+o1+$k), R1) && spec.Run(qi, S, base+o1+$k).Off == base+o1+$k
+//@     use spec.Run.unfold(qi, S, base+o1+$k+1)
+//@   loop 4
+//@     let o1 = off + 1
+//@     let i0 = i
+//@     let b0 = b
+//@     let R1 = spec.Run(qi, S, base+off+1)
+//@     invariant $k >= 0 ==> i == $k && b == $s[$k]
+//@     invariant $k == -1 ==> i == i0 && b == b0
+//@     invariant $k >= 0 ==> digitMap[b] == numDigit
+//@     invariant [C02 inv] gen.NumInv(t.num) && len(t.num.BigBuf) == 0 && arrid(t.num.BigBuf) != arrid(buf)
+//@     invariant [C01 C09 sim] EqButOff(spec.Run(qi, S, base+o1+$k+1), R1) && spec.Run(qi, S, base+o1+$k+1).Off == base+o1+$k+1
+//@     use spec.Run.unfold(qi, S, base+o1+$k+1)
+//@   loop 5
+//@     let o1 = off + 1
+//@     let i0 = i
+//@     let b0 = b
+//@     let R1 = spec.Run(qi, S, base+off+1)
+//@     invariant $k >= 0 ==> i == $k && b == $s[$k]
+//@     invariant $k == -1 ==> i == i0 && b == b0
+//@     invariant $k >= 0 ==> digitMap[b] == numDigit
+//@     invariant [C02 inv] gen.NumInv(t.num) && len(t.num.BigBuf) == 0 && arrid(t.num.BigBuf) != arrid(buf)
+//@     invariant [C01 C09 sim] $k >= 0 ==> spec.Run(qi, S, base+o1+$k+1).Ph == spec.NumFrac && EqButOffPh(spec.Run(qi, S, base+o1+$k+1), R1)
+//@     invariant [C01 C09 sim] $k >= 0 ==> spec.Run(qi, S, base+o1+$k+1).Off == base+o1+$k+1
+//@     use spec.Run.unfold(qi, S, base+o1+$k+1)
+//@   loop 6
+//@     let o1 = off + 1
+//@     let i0 = i
+//@     let b0 = b
+//@     let R1 = spec.Run(qi, S, base+off+1)
+//@     invariant $k >= 0 ==> i == $k && b == $s[$k]
+//@     invariant $k == -1 ==> i == i0 && b == b0
+//@     invariant $k >= 0 ==> spaceMap[b] == skipChar
+//@     invariant [C01 C09 sim] EqButOff(spec.Run(qi, S, base+o1+$k+1), R1) && spec.Run(qi, S, base+o1+$k+1).Off == base+o1+$k+1
+//@     invariant [C01 C09 sim] $k >= 0 ==> EqButOff(spec.Run(qi, S, base+o1+$k), R1) && spec.Run(qi, S, base+o1+$k).Off == base+o1+$k
+//@     use spec.Run.unfold(qi, S, base+o1+$k+1)
+
+
+//@ func (*Tokenizer).handleNum
+//@   requires gen.NumInv(t.num) && t.handler != nil
+//@   modifies t.num.BigBuf, heap(t.num.BigBuf)
+//@   ensures [C07 own] arrid(t.num.BigBuf) == old(arrid(t.num.BigBuf)) || fresh(t.num.BigBuf)
+
+// Entry points of the tokenizer: the same postconditions as the Parser's, over the same specification (C03: the
+// front-ends agree on acceptance and error position because each is proved against spec.Run).
+
+//@ func (*Tokenizer).Parse
+//@   ghost S seq, zero int, T seq
+//@   opt stream = buf, S, zero
+//@   requires zero == 0 && S.Len() == len(buf) && len(buf) <= 1099511627776
+//@   requires forall j: 0 <= j && j < len(buf) - 3 ==> T[j] == S[j+3]
+//@   let m0 = !t.OnlyOne
+//@   requires handler != nil
+//@   requires [own] arrid(t.runeBytes) != arrid(buf) && arrid(t.num.BigBuf) != arrid(buf) && (!isnil(t.starts) ==> TOwn(t, buf))
+//@   modifies everything
+//@   let hasBOM = 2 < len(buf) && S[0] == 0xEF && S[1] == 0xBB && S[2] == 0xBF
+//@   ensures [C01 C07 accept] !hasBOM ==> (err == nil <==> spec.AcceptEOF(spec.Run(spec.Init(m0), S, len(buf))))
+//@   ensures [C01 C07 accept-bom] hasBOM ==> (err == nil <==> spec.AcceptEOF(spec.Run(spec.Init(m0), T, len(buf) - 3)))
+//@   use spec.Run.unfold(spec.Init(m0), S, as(err, ParseError).Column + t.noff), spec.Run.unfold(spec.Init(m0), T, as(err, ParseError).Column + t.noff)
+//@   use ErrAbsorbing(spec.Init(m0), S, as(err, ParseError).Column + t.noff + 1, len(buf))
+//@   use spec.Run.unfold(spec.Init(m0), S, 0), ErrAbsorbing(spec.Init(m0), S, 1, len(buf))
+//@   use ErrAbsorbing(spec.Init(m0), T, as(err, ParseError).Column + t.noff + 1, len(buf) - 3)
+//@   at call tokenizeBuffer#0
+//@     with S = T
+//@     with base = 0
+//@     with qi = spec.Init(m0)
+//@     use spec.Run.unfold(spec.Init(m0), T, 0)
+//@   at call tokenizeBuffer#1
+//@     with S = S
+//@     with base = 0
+//@     with qi = spec.Init(m0)
+//@     use spec.Run.unfold(spec.Init(m0), S, 0)
+
+//@ func (*Tokenizer).Load
+//@   ghost R seq, X seq, shift int
+//@   ghostvar total = 0
+//@   ghostvar cb = 0
+//@   ghostvar cl = 0
+//@   requires forall j: 0 <= j ==> X[j] == R[j + shift]
+//@   let m0 = !t.OnlyOne
+//@   requires handler != nil && r != nil
+//@   requires [own] 0 <= len(t.runeBytes) && 0 <= len(t.num.BigBuf) && 0 <= len(t.tmp) && 0 <= len(t.starts)
+//@   requires [own] !isnil(t.starts) ==> arrid(t.starts) != arrid(t.tmp) && arrid(t.starts) != arrid(t.runeBytes) && arrid(t.starts) != arrid(t.num.BigBuf)
+//@   modifies everything
+//@   ensures [C01 C03 accept] err == nil ==> spec.AcceptEOF(spec.Run(spec.Init(m0), X, total - shift))
+//@   ensures [C01 C03 C09 reject] typeis(err, ParseError, ptr) ==> VErr(as(err, ParseError), as(err, ParseError).Column + t.noff, spec.Init(m0), X, cb, cl, true)
+//@       || VErr(as(err, ParseError), as(err, ParseError).Column + t.noff, spec.Init(m0), X, cb, cl, false)
+//@   loop 0
+//@     invariant [C03 chunk] 0 <= total && (total == 0 ==> skip == shift) && (total > 0 ==> skip == 0) && skip <= len(buf)
+//@     invariant [C03 chunk] total + len(buf) <= 1152921504606846000
+//@     invariant [C03 chunk] forall j: 0 <= j && j < len(buf) ==> buf[j] == R[total + j]
+//@     invariant [C01 C03 C09 sim] TRel(t, spec.Run(spec.Init(m0), X, total+skip-shift), total+skip-shift, total+skip-shift)
+//@     invariant [C07 own] TOwn(t, buf)
+//@     invariant [C07 frame] m0 == !t.OnlyOne
+//@   at call Read#0
+//@     use spec.Run.unfold(spec.Init(m0), X, 0)
+//@     assume !typeis($r1, ParseError, ptr)
+//@     assume forall j: 0 <= j && j < $r0 ==> buf[j] == R[j]
+//@     assume (shift == 0 || shift == 3) && ((shift == 3) <==> (2 < $r0 && R[0] == 0xEF && R[1] == 0xBB && R[2] == 0xBF))
+//@     assume $r0 <= 1152921504606846000
+//@   at call Read#1
+//@     assume !typeis($r1, ParseError, ptr)
+//@     assume forall j: 0 <= j && j < $r0 ==> buf[j] == R[total + j]
+//@     assume total + $r0 <= 1152921504606846000
+//@   at call tokenizeBuffer#0
+//@     with S = X
+//@     with base = total + skip - shift
+//@     with qi = spec.Init(m0)
+//@     use spec.Run.unfold(spec.Init(m0), X, 0)
+//@     set cb = total + skip - shift
+//@     set cl = len(buf) - skip
+//@     set total = total + len(buf)
+//@   at call tokenizeBuffer#1
+//@     with S = X
+//@     with base = total + skip - shift
+//@     with qi = spec.Init(m0)
+//@     use spec.Run.unfold(spec.Init(m0), X, 0)
+//@     set cb = total + skip - shift
+//@     set cl = len(buf) - skip
+//@     set total = total + len(buf)
